@@ -1046,6 +1046,10 @@ def call_method(I, fr, name, base, args, kwargs, node):
                     return default
                 if base.dvals and k in base.dvals:
                     return join_av(base.dvals[k], default)
+                if default.kind != K_NONE:
+                    # typing assumption: a keyword option has the kind of its default (value unknown)
+                    return default.replace(const=_NOCONST, sym=None, expo=None, sign=S_ANY,
+                                           tags=default.tags | frozenset(["kw:" + k]))
                 return join_av(default, top_av(True, "kwargs value", ()).replace(
                     kind=K_TOP, tags=frozenset(["kw:" + k]), indef=False)).replace(const=_NOCONST)
             return top_av(True, "dict.get", I.atoms)
